@@ -63,6 +63,11 @@ def fam_areas3():
     return out
 
 
+def dispatch_program(N):
+    """N area-carrying commands (N blocks in the emitted dispatch), the last one jumps back into the middle once"""
+    return ' '.join('형' + '.' * i + '♥ 흣.' for i in range(1, N + 1))
+
+
 def fam_dispatch():
     out = []
     for N in range(1, 41):
@@ -176,8 +181,9 @@ def fam_scale(tier):
         return [scale.deep_program(1, 17, 17), scale.deep_program(3, 65, 65), scale.deep_program(2, 16, 18),
                 scale.deep_program(4, 33, 33), '%s %s %s' % (scale.P65, P.spell(5, 65, 4), ' '.join(['항.'] * 66)),
                 scale.many_labels(17, 7), scale.many_labels(65, 5, same_heart=True), scale.straight(256),
-                scale.loop_program(100)]
-    return [t for t in scale.scale_programs('quick') if len(P.parse(t)) <= 530] + [scale.loop_program(100)]
+                scale.loop_program(100)] + [dispatch_program(n) for n in (64, 65)]
+    return ([t for t in scale.scale_programs('quick') if len(P.parse(t)) <= 530] + [scale.loop_program(100)]
+            + [dispatch_program(n) for n in (63, 64, 65, 127, 128, 129, 255, 256, 257)])
 
 
 def fam_prestate_size():
